@@ -292,6 +292,20 @@ def run_case(spec, j):
                 1e-300, det)
         if mp is not None:
           j.check('C02.form.prep-consulted', mp.n_calls > before, det)
+        # structured index columns (runs, runs with a repeat and a skip,
+        # constants): same points, whatever shortcut the indexing takes
+        o = int(offset)
+        cols = [np.arange(o, o + 5), np.array([o, o, o + 2, o + 3, o + 4]),
+                np.array([o + 1, o + 1, o + 3, o + 4, o + 5]),
+                np.full(5, o + 2), np.arange(o + 4, o - 1, -1)]
+        for a_ in range(len(cols)):
+          ix = np.column_stack([cols[a_], cols[(a_ + 1) % len(cols)]])
+          ix = np.minimum(ix, len(pool) - 1)
+          g2 = tw.pair_distance(ix)
+          r2 = tw.pair_distance(pool[ix])
+          j.check('C02.form.prep-' + kind,
+                  np.array_equal(g2, r2, equal_nan=True),
+                  dict(det, indices=ix))
     offset += 2 * n
     if np.any(d1[np.isfinite(d1)] > 0) and np.any(L != 0):
       j.distinct(spec['est'], cfg_key, spec['ds']['seed'], qc)
